@@ -59,6 +59,7 @@ def showVal : Val → String
   | .nil => "nil"
   | .unspec => "unspec"
   | .str _ => "other"
+  | .bytes bs => "x:" ++ hexOfBytes bs
 
 def showRes : Res Val → String
   | .ok v => showVal v
